@@ -148,10 +148,61 @@ func main() {
 		BudgetQuick:    150 * time.Second,
 		BudgetThorough: 25 * time.Minute,
 		Finish: func(r *vlib.Run) {
+			loopbackLeg(r, thorough)
 			r.Assume("client and upstream are simulated in-memory stream conns (never *net.TCPConn): the splice(2) and writev(2) fast paths and TIOCINQ probing are not executed; gather write goes through net.Buffers.WriteTo and the buffered copy loops")
 			r.Assume("the valid DNS-over-TCP query path on port 53 is left to C07/C09; port 53 carries non-DNS bytes here")
 			r.Assume("sniffing timeout 100ms; dial target / routing decision are not checked here (C18, C01)")
 		},
 	}
 	vdrive.Main("C05", p)
+}
+
+
+func pattern(tag byte, n int) []byte {
+	b := make([]byte, n)
+	for i := range b {
+		b[i] = tag + byte(i%23)
+	}
+	return b
+}
+
+// loopbackLeg: real loopback sockets (kernel copy paths); enumeration of payload shapes, byte-equality oracle only.
+func loopbackLeg(r *vlib.Run, thorough bool) {
+	sizes1 := []int{1, 14, 600, 5000}
+	sizes2 := []int{0, 3, 2000, 40000}
+	if thorough {
+		sizes1 = append(sizes1, 4095, 4097, 33000, 70000)
+		sizes2 = append(sizes2, 4096, 70000)
+	}
+	resp := []byte("HTTP/1.1 200 OK\r\n\r\nbody-bytes")
+	var cases []*control.C05LoopCase
+	for _, port := range []uint16{53, 80, 443, 2222} {
+		for _, mode := range []string{"ip", "domain"} {
+			for _, n1 := range sizes1 {
+				for _, n2 := range sizes2 {
+					for _, hold := range []bool{false, true} {
+						if hold && n2 == 0 {
+							continue
+						}
+						c1 := pattern('A', n1)
+						if port == 53 && n1 >= 2 {
+							c1[0], c1[1] = 0x00, 0x05 // a DNS-over-TCP "length" below the minimum: rejected at once, no 5s wait
+						} else if port == 53 {
+							continue // a single byte would sit in the 5s DNS detection window (covered by the scheduler leg)
+						}
+						cases = append(cases, &control.C05LoopCase{Port: port, Mode: mode, Chunk1: c1, Chunk2: pattern('a', n2), HoldDial: hold, ServerResp: resp})
+					}
+				}
+			}
+		}
+	}
+	n := r.Counter("loopback_cases")
+	r.ParallelFor(len(cases), func(i int) {
+		sig, detail := control.C05Loopback(cases[i])
+		n.Add(1)
+		if sig != "" {
+			r.Violation(sig, detail)
+		}
+	})
+	r.Assume("loopback leg: real kernel sockets, timing not controlled; payload shapes enumerated, oracle = byte equality in both directions")
 }
